@@ -2573,6 +2573,15 @@ class KmipEngine(object):
                     )
                 )
 
+            if managed_object._object_type in [
+                enums.ObjectType.CERTIFICATE,
+                enums.ObjectType.OPAQUE_DATA
+            ]:
+                raise exceptions.IllegalOperation(
+                    "Only objects with a key block (keys and secret data) can "
+                    "be wrapped."
+                )
+
             if key_wrapping_spec.encryption_key_information:
                 key_info = key_wrapping_spec.encryption_key_information
                 encryption_key_uuid = key_info.unique_identifier
